@@ -53,6 +53,13 @@ func (s *vKV) Load(_ context.Context, key string) ([]byte, error) {
 		s.corrupt = true
 		return ndBytes("stored-garbage"), nil
 	}
+	if !s.reliable && len(s.savedVal) > 0 && ndBool("kv-value-last-byte-altered") {
+		// someone who can write to the store, but holds no secret, alters the stored value
+		s.corrupt = true
+		n := len(s.savedVal)
+		out := append([]byte{}, s.savedVal[:n-1]...)
+		return append(out, s.savedVal[n-1]+1), nil
+	}
 	return s.savedVal, nil
 }
 func (s *vKV) Clear(_ context.Context, key string) error {
@@ -135,7 +142,7 @@ func vh_C13_manager_save() {
 }
 
 // Save -> Load round trip through the store; a re-save re-uses the ticket
-// verif: unwind=8 strlen=12 also=C13,C02,C09 steps=2000000
+// verif: unwind=8 strlen=12 also=C13,C02,C09 steps=2000000 ideal
 func vh_C10_manager_roundtrip() {
 	kv := &vKV{reliable: true}
 	opts := vOpts()
